@@ -1,5 +1,6 @@
 """C02 — a query returns exactly the matching events: structural clauses."""
 from .util import *
+import json
 from ..callgraph import CallGraph
 
 EXPLANATION = """
@@ -22,8 +23,8 @@ i) every comparison leaf of WHERE becomes a row condition: in ConditionEvaluator
 j) the event-at-a-time evaluation of a numeric condition (memtable rows) reads the field through the same kinds as the columnar one (i64, u64, f64): NumericCondition::evaluate_event_direct and
    evaluate_at are siblings; a kind only one of them reads gives different answers before and after FLUSH.
 """
-FLOOR = 15
-REQUIRED = ["C02.a1", "C02.a2", "C02.a3", "C02.a4", "C02.b", "C02.c", "C02.d", "C02.e1", "C02.e2", "C02.f", "C02.g", "C02.h", "C02.i", "C02.j", "C02.k"]
+FLOOR = 17
+REQUIRED = ["C02.a1", "C02.a2", "C02.a3", "C02.a4", "C02.b", "C02.c", "C02.d", "C02.e1", "C02.e2", "C02.f", "C02.g", "C02.h", "C02.i", "C02.j", "C02.k", "C02.l", "C02.m"]
 
 SUPERSET = r"(collect_zones_for_scope|create_all_zones_for_segment_from_meta(_cached)?)$"
 
@@ -420,3 +421,69 @@ def run(ctx):
             bad.append(("quoted-literal-becomes-number", "add_where_clause turns a quoted literal into a numeric condition through TimeParser::parse_str_to_epoch_seconds without knowing the field's type: a string field is compared numerically (uid = \"7\" matches \"007\")", sp(b, from_text[0].bb)))
         return bad
     ctx.run("C02.k", "K10 READS", "ConditionEvaluatorBuilder::add_where_clause", "a string literal is compared as text unless the field's type says otherwise", k_)
+
+    def m_(inst):
+        """A numeric condition carries an i64 literal; unsigned columns are compared in a u64 lane. A negative literal is below every
+        u64, so what the row filter answers depends on the operator (`>`, `>=`, `!=`: every non-null row; `<`, `<=`, `=`: none).
+        Both row paths that run on segment rows have a `value < 0` early exit on the u64 lane: the exit must consult the operator."""
+        bad = []
+        sites = [("ConditionEvaluator::evaluate_numeric_simd", F.fn("ConditionEvaluator::evaluate_numeric_simd")),
+                 ("NumericCondition::evaluate_at", F.method("NumericCondition", "Condition", "evaluate_at"))]
+        n = 0
+        for nm, b in sites:
+            def negative(op, A, B_, truth):
+                zero = any(l[0] == "const" and re.match(r"^0_i64", str(l[1])) for l in B_)
+                val = any((l[0] == "call" and norm_path(l[1]).endswith("NumericCondition::value")) or (l[0] in ("param", "upvar") and len(l) > 2 and ".value" in l[2]) for l in A)
+                return zero and val and ((op == "Lt" and truth) or (op == "Ge" and not truth))
+            arms_ = []
+            for i_ in sorted(b.live_blocks()):
+                if b.blocks[i_]["t"]["t"] != "switch":
+                    continue
+                si = b.switch_info(i_)
+                d = si.get("def") if si and si["kind"] == "bool" else None
+                if d and d.get("r") == "bin":
+                    for truth, tgt in ((True, si["true"]), (False, si["false"])):
+                        if tgt is not None and negative(d["op"], b.origins(d["a"]), b.origins(d["b"]), truth):
+                            arms_.append((i_, tgt))
+            if not arms_:
+                inst.sites.append("%s: no early exit for a negative literal on the u64 lane" % nm)
+                continue
+            n += 1
+            for (i_, tgt) in arms_:
+                # blocks that belong to the negative arm only
+                region = edge_dominated(b, (i_, tgt))
+                reads_op = False
+                for x in region:
+                    for st in b.blocks[x]["s"]:
+                        if ".operation" in json.dumps(st) or ".op\"" in json.dumps(st):
+                            reads_op = True
+                    t = b.blocks[x]["t"]
+                    if t["t"] == "call" and re.search(r"NumericCondition::op$|::operation$", norm_path((t["f"].get("p") or t["f"].get("u") or ""))):
+                        reads_op = True
+                    if t["t"] == "switch":
+                        si2 = b.switch_info(x)
+                        if si2 and si2["kind"] == "enum" and (si2.get("adt") or "").endswith("CompareOp"):
+                            reads_op = True
+                inst.sites.append("%s: negative-literal exit @ %s consults the operator: %s" % (nm, sp(b, i_), reads_op))
+                if not reads_op:
+                    bad.append(("negative-bound-ignores-operator:%s" % nm.split("::")[-1], "%s answers `no row` for every operator when the literal is negative and the column is unsigned: u > -1, u >= -5, u != -1 lose every row of a flushed segment" % nm, sp(b, i_)))
+        if n < 1:
+            raise AnchorMissing("a negative-literal exit on the u64 lane in the row filters")
+        return bad
+    ctx.run("C02.m", "K11 SIB + K8", "evaluate_numeric_simd / NumericCondition::evaluate_at (u64 lane)", "a negative literal against an unsigned column is answered per operator", m_)
+
+    def l_(inst):
+        """String conditions read a row through get_str_at. Memtable rows render a bool value as "true" / "false"; a flushed bool column
+        is typed, so the segment accessor must give it the same string view or `b = true` matches in memory and nothing after FLUSH."""
+        bad = []
+        g = F.method("PreparedAccessor", "FieldAccessor", "get_str_at")
+        fam = [g] + [F.fn_exact(k) for k in F.keys() if k.startswith(g.key.split("::{closure")[0] + "::{closure")]
+        has_bool = any(c.nname.endswith("ColumnValues::get_bool_at") for f_ in fam for c in f_.calls if not c.cleanup)
+        has_str = any(c.nname.endswith("ColumnValues::get_str_at") for f_ in fam for c in f_.calls if not c.cleanup)
+        if not has_str:
+            raise AnchorMissing("ColumnValues::get_str_at in PreparedAccessor::get_str_at")
+        inst.sites.append("PreparedAccessor::get_str_at: string view of typed bool columns: %s" % has_bool)
+        if not has_bool:
+            bad.append(("bool-column-has-no-string-view", "PreparedAccessor::get_str_at returns None for a typed bool column: the string condition a true / false literal becomes fails every row of a flushed segment", sp(g, 0)))
+        return bad
+    ctx.run("C02.l", "K11 SIB", "PreparedAccessor::get_str_at", "bool values have the same string view in memory and in segments", l_)
